@@ -7,6 +7,7 @@
 //!   generate(&mut Rng, tier) -> Vec<Value>      inputs as JSON (so they replay exactly)
 //!   execute(&Value) -> String                    runs the implementation, returns a Gallina case
 //! With `--inputs FILE` (JSON lines) the generator is skipped: replay / corpus.
+mod c08;
 mod c15;
 mod dump;
 mod gal;
@@ -33,6 +34,7 @@ pub struct PropModule {
 fn module(prop: &str) -> PropModule {
     match prop {
         "C15" => c15::module(),
+        "C08" => c08::module(),
         "C01" => PropModule { coq_module: "Check_Norm", runner: "Check_Norm.run_C01", generate: |r, t| libgen::generate_mixed(r, t, 320), execute: lib_stage::execute, label: libgen::label },
         "C02" => PropModule { coq_module: "Check_Norm", runner: "Check_Norm.run_C02", generate: |r, t| libgen::generate_mixed(r, t, 320), execute: lib_stage::execute, label: libgen::label },
         "C06" => PropModule { coq_module: "Check_Norm", runner: "Check_Norm.run_C06", generate: |r, t| libgen::generate_mixed(r, t, 320), execute: lib_stage::execute, label: libgen::label },
